@@ -46,8 +46,12 @@ def run(ctx):
             return finish(ctx, 'model_checking', 'Kani differential harness failed and the native layout battery reproduces a difference from the reference encoder/decoder.',
                           extra_cov={'kani': [{k: r.get(k) for k in ('harness', 'verdict', 'wall_s', 'solver_s')} for r in getattr(ctx, 'kani', [])], 'states': 1, 'transitions': 1})
     # ---- engine M
-    cexs = c07.run_plan(ctx, ('C06',), ('ref_encode', 'ref_decode'))
+    ctx.bounds['vector lengths in the length-abstraction harnesses (Type, Variant, Field, PortableRegistry)'] = 'every length < 2^32: exact compact length prefix, then the elements; elements opaque'
+    cexs = c07.run_lengths(ctx, ('C06',))
+    cexs += c07.run_plan(ctx, ('C06',), ('ref_encode', 'ref_decode'))
     c07.finish_cases(ctx, cexs, ('C06',))
+    if getattr(ctx, 'deferred', None) and not ctx.violations and not failed:
+        raise CheckInconclusive('part of the check cannot be executed on the current code and no violation was found by the rest: ' + '; '.join(ctx.deferred)[:1500])
     if failed and not ctx.violations:
         # a failed Kani harness is reported through the native layout battery (same reference encoder, concrete corpus)
         a = ctx.get_native().ask({'op': 'layout_battery', 'seed': ctx.seed})
